@@ -12,6 +12,7 @@ import (
 	"pgregory.net/rapid"
 
 	"perun.network/go-perun/wire"
+	wirenet "perun.network/go-perun/wire/net"
 	perunser "perun.network/go-perun/wire/perunio/serializer"
 	"perun.network/go-perun/wire/protobuf"
 
@@ -80,6 +81,13 @@ func (r *chunkReader) Read(p []byte) (int, error) {
 	}
 	return n, nil
 }
+
+// rwc makes a connection out of a chunk reader (writes are discarded).
+type rwc struct{ r *chunkReader }
+
+func (c rwc) Read(p []byte) (int, error)  { return c.r.Read(p) }
+func (c rwc) Write(p []byte) (int, error) { return len(p), nil }
+func (c rwc) Close() error                { return nil }
 
 func bigEnvelope(t *rapid.T) gen.EnvSpec {
 	e := gen.EnvSpec{Sender: gen.GenWireMap().Draw(t, "s"), Recipient: gen.GenWireMap().Draw(t, "r")}
@@ -206,6 +214,18 @@ func runCase(c Case) *h.Outcome {
 			if cr.pos != len(cr.data) {
 				return h.Failf("stream-position:"+ser.name, "after %d envelopes the reader is at %d of %d", len(c.Envs), cr.pos, len(cr.data))
 			}
+			// the same stream through the connection object the network layer uses
+			// (wire/net.ioConn): k Recv calls yield the k envelopes, in order
+			conn := wirenet.NewIoConn(rwc{&chunkReader{data: stream.Bytes(), sizes: c.Sizes, cuts: cuts}}, ser.s)
+			for i, es := range c.Envs {
+				got, err := conn.Recv()
+				if err != nil {
+					return h.Failf("ioconn-recv-error:"+ser.name, "Recv of envelope %d of %d (%s) fails when the connection delivers the stream in chunks (sizes %v, cuts %v): %v", i, len(c.Envs), es.Msg.Type, c.Sizes, c.Cuts, err)
+				}
+				if !bytes.Equal(h.Canon(es.Norm()), h.Canon(gen.UnEnv(got))) {
+					return h.Failf("ioconn-recv-value:"+ser.name, "Recv %d of %d does not return the envelope that was written (%s)", i, len(c.Envs), es.Msg.Type)
+				}
+			}
 			return nil
 		})
 		if f != nil {
@@ -219,7 +239,7 @@ func runCase(c Case) *h.Outcome {
 	return o
 }
 
-const rule = "1-5 well-formed envelopes (generated messages of all types, one third of them 1.4-65 kB large: long strings, long signatures, states with up to 1000 assets) encoded back to back with the native and with the protobuf serializer, and a partition of the byte stream into reads: whole, single bytes, fixed n, random sizes, cuts exactly at / around the length-prefix boundaries of every envelope, mixtures. The reader returns each chunk with a nil error and io.EOF only on a later call (open stream), never (0,nil). Oracle: decoding k times yields, in order, envelopes equal to the originals and to the result of the one-read delivery (differential across chunkings), and the stream is fully consumed. non-trivial = the decoder experienced at least one short read (fewer bytes than it asked for) inside an envelope"
+const rule = "1-5 well-formed envelopes (generated messages of all types, one third of them 1.4-65 kB large: long strings, long signatures, states with up to 1000 assets) encoded back to back with the native and with the protobuf serializer, and a partition of the byte stream into reads: whole, single bytes, fixed n, random sizes, cuts exactly at / around the length-prefix boundaries of every envelope, mixtures. The reader returns each chunk with a nil error and io.EOF only on a later call (open stream), never (0,nil). Oracle: decoding k times yields, in order, envelopes equal to the originals and to the result of the one-read delivery (differential across chunkings), and the stream is fully consumed; the same stream behind a wire/net connection object (NewIoConn) yields the k envelopes in k Recv calls. non-trivial = the decoder experienced at least one short read (fewer bytes than it asked for) inside an envelope"
 
 func TestChunking(t *testing.T) {
 	rec := h.Begin("C16", "")
@@ -242,5 +262,13 @@ func TestReplay(t *testing.T) {
 		t.Fatal(err)
 	}
 	rec := h.Begin("C16", "replay")
+	if h.ReplayPart(p) == "values" {
+		var vc ValCase
+		if err := h.LoadReplay(p, &vc); err != nil {
+			t.Fatal(err)
+		}
+		rec.Report(t, vc, runValCase(vc))
+		return
+	}
 	rec.Report(t, c, runCase(c))
 }
